@@ -56,3 +56,6 @@ pub(crate) fn slab_pair_event(data_len: usize, count: usize, ss: usize, dest_sta
         }
     });
 }
+
+#[cfg(feature = "std")]
+pub use crate::encoder::verif_plan_cache as plan_cache;
